@@ -4,7 +4,8 @@
    validity of every decoded rule, the deliveries, and what was observed (Handle's return and
    the rules in force after each delivery).  `mismatches` lists the cases on which the model
    (Model/Datasource.v instantiated by Model/DatasourceRef.v) predicts something else. *)
-From SG Require Export Base.Prelude Model.Datasource Model.DatasourceRef.
+From Coq Require Export Ascii String.
+From SG Require Export Base.Prelude Model.Datasource Model.DatasourceRef Model.Json Model.DatasourceWire.
 
 Fixpoint zl_eqb (a b : list Z) : bool :=
   match a, b with
@@ -81,13 +82,96 @@ Fixpoint fobsl_eqb (a b : list fobs) : bool :=
   | _, _ => false
   end.
 
+(* ---- wire format: the real *JsonArrayParser against Model/Json.v ----------------------------- *)
+
+(* a field of a rule the Go parser returned: string, integer, float64 (IEEE bits), or hotspot's
+   SpecificItems map (entries in any order; float keys as bits) *)
+Inductive gval := GStr (s : jbytes) | GInt (z : Z) | GFlt (bits : Z) | GMap (l : list (gkey * Z)).
+
+(* what the parser returned: (nil, err) | (nil, nil) | a rule slice (nil slice?, nil elements) | it panicked *)
+Inductive gres := GErr | GNil | GRules (isnil : bool) (l : list (option (list gval))) | GPanic.
+
+Definition gkey_same (a b : gkey) : bool :=
+  match a, b with
+  | KInt x, KInt y => x =? y
+  | KStr x, KStr y => la_eqb x y
+  | KBool x, KBool y => Bool.eqb x y
+  | KFlt x, KFlt y => x =? y
+  | _, _ => false
+  end.
+
+Definition entry_same (a b : gkey * Z) : bool := gkey_same (fst a) (fst b) && (snd a =? snd b).
+
+Definition map_same (a b : list (gkey * Z)) : bool :=
+  (Z.of_nat (length a) =? Z.of_nat (length b)) &&
+  forallb (fun x => existsb (entry_same x) b) a && forallb (fun y => existsb (entry_same y) a) b.
+
+(* ftab: float literal -> bits of strconv.ParseFloat(literal); itab: see Model/Json.v conv_key *)
+Definition val_match (ftab : list (jbytes * Z)) (itab : list (jbytes * option Z)) (v : fval) (g : gval) : bool :=
+  match v, g with
+  | FStr s, GStr t => la_eqb s t
+  | FInt z, GInt y => z =? y
+  | FNum lit, GFlt bits => match blookup lit ftab with Some b => b =? bits | None => false end
+  | FItems l, GMap m => map_same (conv_items itab l) m
+  | _, _ => false
+  end.
+
+Fixpoint rule_match ftab itab (r : wrule) (g : list gval) : bool :=
+  match r, g with
+  | [], [] => true
+  | v :: r', x :: g' => val_match ftab itab v x && rule_match ftab itab r' g'
+  | _, _ => false
+  end.
+
+Fixpoint rules_match ftab itab (l : list (option wrule)) (g : list (option (list gval))) : bool :=
+  match l, g with
+  | [], [] => true
+  | None :: l', None :: g' => rules_match ftab itab l' g'
+  | Some r :: l', Some x :: g' => rule_match ftab itab r x && rules_match ftab itab l' g'
+  | _, _ => false
+  end.
+
+Definition res_match ftab itab (d : dres) (g : gres) : bool :=
+  match d, g with
+  | Undecodable, GErr => true
+  | Empty, GNil => true
+  | Rules n l, GRules n' gl => Bool.eqb n n' && rules_match ftab itab l gl
+  | _, _ => false
+  end.
+
+Definition ftype_eqb (a b : ftype) : bool :=
+  match a, b with
+  | TStr, TStr | TNum, TNum | TItems, TItems => true
+  | TInt l1 h1, TInt l2 h2 => (l1 =? l2) && (h1 =? h2)
+  | _, _ => false
+  end.
+
+Fixpoint schema_eqb (a b : schema) : bool :=
+  match a, b with
+  | [], [] => true
+  | (k1, t1) :: a', (k2, t2) :: b' => la_eqb k1 k2 && ftype_eqb t1 t2 && schema_eqb a' b'
+  | _, _ => false
+  end.
+
+(* the members of hotspot_rule_converter.go SpecificValue that set_item / enc_item hard-code *)
+Definition item_schema : schema := [ (B "valKind", i64); (B "valStr", TStr); (B "threshold", i64) ].
+
+(* payloads with bytes that cannot stand in a Coq string literal *)
+Definition bytes_of (l : list Z) : jbytes := map (fun z => ascii_of_nat (Z.to_nat z)) l.
+
 Inductive case :=
 | HCase (id : Z) (parser : Z) (validtab : list Z) (tab : list (Z * cls))
         (ops : list (Z * bool)) (observed : list (Z * list Z))
     (* deliveries to a property handler *)
 | FCase (id : Z) (validtab : list Z) (tab : list (Z * cls)) (init_content : Z)
         (ops : list (fop Z)) (init_obs : fobs) (observed : list fobs)
-    (* a RefreshableFileDataSource driven through file operations; payload id -1 is Handle(nil) *).
+    (* a RefreshableFileDataSource driven through file operations; payload id -1 is Handle(nil) *)
+| WCase (id : Z) (kind : Z) (payload : jbytes) (insub : bool) (enc_of : option (list wrule))
+        (ftab : list (jbytes * Z)) (itab : list (jbytes * option Z)) (observed : gres)
+    (* one payload given to the real parser of module `kind`; enc_of = Some l claims that the
+       payload is the model encoder's output for l *)
+| SCase (id : Z) (kind : Z) (go_schema : schema)
+    (* json tags and field types of the Go wire struct, read by reflection (kind 5 = SpecificValue) *).
 
 Definition case_ok (c : case) : bool :=
   match c with
@@ -98,10 +182,23 @@ Definition case_ok (c : case) : bool :=
       let tab' := (-1, KNil) :: tab in
       let st0 := finit (rconvert tab') rpeq (rtyped false) (rload validtab) rclear rinit c0 in
       fobs_eqb (fobserve st0) o0 && fobsl_eqb (fsim tab' validtab st0 ops) observed
+  | WCase _ kind payload insub enc_of ftab itab observed =>
+      let sch := schema_of kind in
+      Bool.eqb (in_subset payload) insub &&
+      match enc_of with
+      | Some l => forallb (rule_ok sch) l && la_eqb (encode sch l) payload
+      | None => true
+      end &&
+      (if insub then res_match ftab itab (decode sch payload) observed else true)
+  | SCase _ kind gs =>
+      if kind =? 5 then schema_eqb item_schema gs else schema_eqb (schema_of kind) gs
   end.
 
 Definition case_id (c : case) : Z :=
-  match c with HCase id _ _ _ _ _ => id | FCase id _ _ _ _ _ _ => id end.
+  match c with
+  | HCase id _ _ _ _ _ => id | FCase id _ _ _ _ _ _ => id
+  | WCase id _ _ _ _ _ _ _ => id | SCase id _ _ => id
+  end.
 
 Definition mismatches (cs : list case) : list Z :=
   map case_id (filter (fun c => negb (case_ok c)) cs).
